@@ -31,7 +31,7 @@ COND_MIN = 1e-3       # predict-reproduces-embedding is compared only if sigma_m
 #                       un-normalised embedding row has norm > COND_MIN (the hypothesis sigma != 0 of the theorem)
 TOL_PREDICT = 1e-7    # predict(row i) vs embedding_row_[i] under that conditioning guard
 
-SOLVER_EXCEPTION_BUDGET = {'quick': 40, 'thorough': 150}   # fits lost to ARPACK / LAPACK (counted, never judged)
+SOLVER_EXCEPTION_BUDGET = {'quick': 10, 'thorough': 50}   # fits lost to ARPACK / LAPACK (counted, never judged)
 EVALUATION_FLOOR = {'quick': 3000, 'thorough': 15000}      # a run that evaluates less did not check the property
 
 RULE = ('all undirected graphs n<=4 (loops n<=3; unit or random symmetric weights for n=4) x decomposition x regularisation x '
@@ -201,6 +201,10 @@ def call(f):
         return 'err ' + type(e).__name__
 
 
+class SkipCase(Exception):
+    """Raised by the harness's own solver on an input outside the quantifier (operator with NaN entries)."""
+
+
 def run_est(ctx, f):
     """Run an estimator.  Only a failure of the external solver itself (ARPACK / LAPACK) makes the fit
     disappear (counted, budgeted in `run`); the five exception classes of the models become `err <Class>`; every other
@@ -208,6 +212,9 @@ def run_est(ctx, f):
     from scipy.sparse.linalg import ArpackError
     try:
         return f()
+    except SkipCase as e:
+        ctx.count('outside-quantifier:' + str(e))
+        return None
     except (ArpackError, np.linalg.LinAlgError) as e:      # LinAlgError is a ValueError: test it first
         ctx.count('solver-exception:' + type(e).__name__)
         return None
@@ -357,7 +364,7 @@ def make_solvers():
             self.matrix, self.k = matrix, n_components
             dense = dense_of(matrix)
             if not np.all(np.isfinite(dense)):
-                raise np.linalg.LinAlgError('non-finite operator')     # what LAPACK would answer, without its console noise
+                raise SkipCase('non-finite-operator')      # negative regularisation made a weight negative: NaN powers
             if not (isinstance(n_components, (int, np.integer)) and 0 < n_components < min(dense.shape)):
                 raise ValueError('`k` must be an integer satisfying `0 < k < min(A.shape)`.')
             u, s, vt = np.linalg.svd(dense, full_matrices=False)
@@ -470,6 +477,15 @@ def fit_spectral(ctx, a, nc, dec, reg, normalized, fb=False, variant=None):
         return 'ok'
     status = run_est(ctx, f)
     if status is None:
+        blk = block(dense) if (fb or nr != ncol or not np.array_equal(dense, dense.T)) else dense
+        if oracle_reg(blk, reg) == 0 and not np.any(blk - np.diag(np.diag(blk))):
+            # only self-loops and no regularisation: the Laplacian is the zero operator, every vector is an eigenvector and
+            # ARPACK refuses to start ("starting vector is zero"); stated in the status file, not part of the budget
+            ctx.count('zero-laplacian:ArpackError')
+            if hasattr(ctx, 'dist'):
+                ctx.dist['solver-exception:ArpackError'] = ctx.dist.get('solver-exception:ArpackError', 1) - 1
+        else:
+            ctx.note('solver exception in Spectral.fit: %s on %s' % (params, mat_desc(a)))
         return None
     cap = CAP.get('eig')
     gkey = ('Spectral', a.shape, a.indptr.tobytes(), a.indices.tobytes(), a.data.tobytes(), nc, dec, reg, normalized, fb,
